@@ -119,10 +119,28 @@ def run_c03(tier):
 
 
 def cpp_default_elem(t):
-    """value-initialised element of a std::vector<T> (an enum becomes 0, not its first enumerator)"""
+    """value-initialised element of a std::vector<T> / array<T, n>: an enum element becomes 0 (only a plain enum
+    member gets its first enumerator from the generated constructor); structs are default-constructed recursively"""
     if t['k'] == 'enum':
         return 0
-    return V.default_value(t)
+    return cpp_default_fix(t, V.default_value(t))
+
+
+def cpp_default_fix(t, v):
+    if t['k'] != 'struct':
+        return v
+    out = []
+    for m, x in zip(t['ms'], v['s']):
+        mt = m['t']
+        if m['mk'] == 'fixed' and mt['k'] == 'enum':
+            out.append([0 for _ in x])
+        elif m['mk'] == 'fixed' and mt['k'] == 'struct':
+            out.append([cpp_default_fix(mt, e) for e in x])
+        elif m['mk'] == 'plain' and mt['k'] == 'struct':
+            out.append(cpp_default_fix(mt, x))
+        else:
+            out.append(x)
+    return {'s': out}
 
 
 def grow_value(t, v, grow):
